@@ -1,0 +1,45 @@
+//go:build verif
+
+package executor
+
+import "github.com/alpacahq/marketstore/v4/executor/wal"
+
+// Verification hooks (add-only, compiled only with -tags verif): thin exported wrappers around
+// unexported WAL codec functions so that an external harness can run the real code.
+// No behaviour is changed.
+
+// VerifSerializeTG exposes serializeTG (executor/wal.go).
+func VerifSerializeTG(tgID int64, commands []*wal.WriteCommand) ([]byte, map[string][]wal.OffsetIndexBuffer) {
+	return serializeTG(tgID, commands)
+}
+
+// VerifValidateCheckSum exposes validateCheckSum (executor/wal.go).
+func VerifValidateCheckSum(tgLenSerialized, tgSerialized, checkBuf []byte) error {
+	return validateCheckSum(tgLenSerialized, tgSerialized, checkBuf)
+}
+
+// VerifWalKeyToFullPath exposes walKeyToFullPath (executor/wal.go).
+func VerifWalKeyToFullPath(rootPath, keyPath string) string {
+	return walKeyToFullPath(rootPath, keyPath)
+}
+
+// VerifCaptureWriteCommands runs f (typically Writer.WriteCSM) with the flush at its end suspended and
+// returns the write commands f queued, removing them from the pipe (nothing reaches the WAL or the
+// primary files).  A flush token queued beforehand makes RequestFlush return at once
+// (wal.go RequestFlush: "if there's already a queued flush, no need to queue another").
+func VerifCaptureWriteCommands(wf *WALFileType, f func()) []*wal.WriteCommand {
+	old := haveWALWriter
+	haveWALWriter = true
+	wf.txnPipe.flushChannel <- make(chan struct{})
+	defer func() {
+		<-wf.txnPipe.flushChannel
+		haveWALWriter = old
+	}()
+	f()
+	n := len(wf.txnPipe.writeChannel)
+	cmds := make([]*wal.WriteCommand, n)
+	for i := 0; i < n; i++ {
+		cmds[i] = <-wf.txnPipe.writeChannel
+	}
+	return cmds
+}
